@@ -44,8 +44,9 @@ def agree(base, got, multi_unexpected):
     return got == base
 
 
-def _schedules(t: int, ka: int, ko: int, kx: int, nn: bool, cfg: int, s0: int, s1: int, s2: int, s3: int, s4: int, s5: int, s6: int = 0, s7: int = 0, shared: bool = False, ex: int = 0) -> bool:
+def _schedules(t: int, ka: int, ko: int, kx: int, nn: bool, cfg: int, s0: int, s1: int, s2: int, s3: int, s4: int, s5: int, s6: int = 0, s7: int = 0, shared: bool = False, ex: int = 0, nested: bool = False) -> bool:
     """
+    pre: not nested or (not shared and ex == 0 and (ka == 1 or ko == 1 or kx == 1) and (thorough() or (t <= 2 and not nn and ka == 1 and ko == 1 and kx == 1)))
     pre: 0 <= ex < 7 and (ex == 0 or ((ka == 3 or ko == 3 or kx == 3) and not shared))
     pre: not shared or (ka == 1 and ko == 1 and kx == 1) or (thorough() and t < 6)
     pre: 0 <= t < len(W.TEMPLATES) and (t < NT or t >= 8) and 0 <= ka <= 3 and 0 <= ko <= 3 and 0 <= kx <= 3 and 0 <= cfg <= 3
@@ -58,6 +59,7 @@ def _schedules(t: int, ka: int, ko: int, kx: int, nn: bool, cfg: int, s0: int, s
     KA, KO, KX, C = concrete_int(ka, 0, 3), concrete_int(ko, 0, 3), concrete_int(kx, 0, 3), concrete_int(cfg, 0, 3)
     NNULL = True if nn else False
     SH = True if shared else False
+    NS = True if nested else False
     EX = concrete_int(ex, 0, 6)
     name, query = W.TEMPLATES[T]
     if NNULL and "nn" not in query:
@@ -73,10 +75,12 @@ def _schedules(t: int, ka: int, ko: int, kx: int, nn: bool, cfg: int, s0: int, s
             W.UNEXPECTED_EXC = 0
             raise
         W.SHARED_RESOLVER = SH       # one function object for every custom field (same baseline)
+        W.NESTED_SUBMIT = NS         # custom-value resolvers hand their work to the runtime again and return what submit() returns (same baseline)
         try:
             got, w = run_config(C, kinds, query, [s0, s1, s2, s3, s4, s5, s6, s7], NNULL)
         finally:
             W.SHARED_RESOLVER = False
+            W.NESTED_SUBMIT = False
             W.UNEXPECTED_EXC = 0
         if got[0] == "pruned":
             return result(True, False)
@@ -107,16 +111,16 @@ def world_in_tier(ka, ko, kx, t) -> bool:
 
 CONDITIONS = [
     Cond(
-        name="schedules", fn=_schedules, quick=240, thorough=1200, per_path=60, shards_quick=16, shards_thorough=32,
+        name="schedules", fn=_schedules, quick=330, thorough=1200, per_path=60, shards_quick=16, shards_thorough=32,
         bound="7 operation templates (flat, nested, list, abstract, same-key merge, mutation, a scalar whose serialize raises ResolverError while the value is completed, a list with falsy non-null entries) x resolver kind in {default, custom value, ResolverError, unexpected exception} for 3 field groups x class of the unexpected "
               "exception (ValueError, KeyError, and the library's own UnknownEnumValue, CoercionError, GraphQLError, ExecutionError, ScalarSerializationError) "
-              "(quick: at most one group deviates from 'custom value') x Int! null or not x 4 executor/runtime configurations x separate resolver functions or ONE function object shared by all custom fields (quick: shared only in the all-custom world) x EVERY completion order of the in-flight tasks (<= 6 tasks)",
+              "(quick: at most one group deviates from 'custom value') x Int! null or not x 4 executor/runtime configurations x separate resolver functions or ONE function object shared by all custom fields (quick: shared only in the all-custom world) x custom resolvers computing directly or handing their work to the runtime again through info.runtime.submit (quick: 3 templates) x EVERY completion order of the in-flight tasks (<= 6 tasks)",
         bound_thorough="same with all 64 kind assignments, plus two wide templates with 7-8 in-flight tasks (every order) for all-custom worlds with at most one failing group",
         symbolic={"t": "choice: template", "ka,ko,kx": "choice: resolver kinds", "nn": "choice: Int! field resolves to null", "cfg": "choice: configuration",
                   "s0..s5": "choice: which pending task completes next at each step", "shared": "choice: one resolver function for all fields", "ex": "choice: exception class"},
-        assumptions=["ThreadPoolRuntime._inner replaced by a recording stub pool; tasks run on the harness thread in the solver-chosen order (future callbacks atomic)",
+        assumptions=["the stub pool is a ONE-worker pool: a task that blocks on Future.result() of a task still queued on the same pool can never finish (PoolStarvation)", "ThreadPoolRuntime._inner replaced by a recording stub pool; tasks run on the harness thread in the solver-chosen order (future callbacks atomic)",
                      "asyncio: DetLoop.time() == 0.0; deferred resolvers await harness-completed futures; the loop's own ready-queue order is the real one",
                      "baseline = BlockingExecutor on the blocking runtime for the same world"],
-        witness={"t": 1, "ka": 1, "ko": 1, "kx": 1, "nn": False, "cfg": 1, "s0": 0, "s1": 0, "s2": 0, "s3": 0, "s4": 0, "s5": 0, "s6": 0, "s7": 0, "shared": False, "ex": 0},
+        witness={"t": 1, "ka": 1, "ko": 1, "kx": 1, "nn": False, "cfg": 1, "s0": 0, "s1": 0, "s2": 0, "s3": 0, "s4": 0, "s5": 0, "s6": 0, "s7": 0, "shared": False, "ex": 0, "nested": False},
     ),
 ]
